@@ -11,7 +11,7 @@ def _malformed(r):
                 or r["len"] not in ("exact", "na") or r["data"] == "bad")
     if r.get("ev") == "Handshake":
         return not (r["typ"] == "bitfield" and r["body"] == "present" and r["pid"] == "ok" and r["ih"] == "ok"
-                    and r["name"] == "ok" and r["bits"].startswith("exact_") and r["rb"] in ("none", "ok"))
+                    and r["name"] == "ok" and r["bits"] in ("exact_none", "exact_some", "exact_all") and r["rb"] in ("none", "ok"))
     return False
 
 
